@@ -94,9 +94,9 @@ func c10State(c *Ctx, n *Node) []Violation {
 }
 
 func checkC10(e *RunEnv) *CheckResult {
-	N := []string{"a", "a.b", "b", "main", "C", "c", "a.lock", "head"}
+	N := []string{"a", "b", "main", "C", "c", "a.lock", "head"}
 	if e.Thorough() {
-		N = append(N, "ab", "a-b")
+		N = append(N, "ab", "a-b", "a.b")
 	}
 	spec := &Spec{
 		Seeds: []Seed{{"S0", seedS0()}, {"S1", seedS1()}, {"S2", seedS2()}},
